@@ -245,13 +245,37 @@ func linuxSpuriousSig(diffLine string) string {
 	}
 	isNum := func(s string) bool { _, err := strconv.Atoi(s); return err == nil }
 	switch {
-	case body == "options: <->-m":
-		// device prints "-m state ... -m tcp --dport N" for a target written
-		// "-m state ... --dport N": the tool keeps one "-m" per rule
-		return "linux:F36-match-before-implicit-protocol-match-hides-m-option"
-	case body == "options: --tcp-flags<->--syn":
-		// device prints "--tcp-flags FIN,SYN,RST,ACK SYN" for a positive --syn
-		return "linux:F31-positive-syn-printed-as-tcp-flags-not-recognised"
+	case strings.HasPrefix(body, "options: "):
+		// option names present on one side only; an analysed cause is
+		// accepted only if it explains all of them
+		set := func(s string) map[string]bool {
+			m := map[string]bool{}
+			for _, k := range strings.Split(s, ",") {
+				if k != "" {
+					m[k] = true
+				}
+			}
+			return m
+		}
+		dev, tgt := set(strings.TrimPrefix(l, "options: ")), set(r)
+		// F31: device prints "--tcp-flags FIN,SYN,RST,ACK SYN" for a positive --syn
+		f31 := dev["--tcp-flags"] && tgt["--syn"]
+		if f31 {
+			delete(dev, "--tcp-flags")
+			delete(tgt, "--syn")
+		}
+		// F36: device prints "-m state ... -m tcp --dport N" for a target
+		// written "-m state ... --dport N"; the tool keeps one "-m" per rule
+		f36 := tgt["-m"]
+		delete(tgt, "-m")
+		if len(dev)+len(tgt) == 0 {
+			switch {
+			case f31:
+				return "linux:F31-positive-syn-printed-as-tcp-flags-not-recognised"
+			case f36:
+				return "linux:F36-match-before-implicit-protocol-match-hides-m-option"
+			}
+		}
 	case strings.HasSuffix(head, ":-p:") && !isNum(strings.TrimPrefix(l, "!")) && isNum(strings.TrimPrefix(r, "!")):
 		if n := strings.TrimPrefix(l, "!"); (n == "vrrp" || n == "ipv6-icmp") && strings.HasPrefix(l, "!") {
 			// the two names the tool does map are not mapped behind a '!'
